@@ -131,6 +131,8 @@ Acts ==
      THEN {[a |-> "send", k |-> Len(S.snd) + 1, app |-> ap, realm |-> "r9", timeout |-> 1, pick |-> "first"] : ap \in Apps} ELSE {}) \cup
   (IF "send1" \in Alpha /\ Len(S.snd) < 2    \* one variant: own realm, timeout 1
      THEN {[a |-> "send", k |-> Len(S.snd) + 1, app |-> ap, realm |-> NodeCfg.realm, timeout |-> 1, pick |-> "first"] : ap \in Apps} ELSE {}) \cup
+  (IF "sendh" \in Alpha /\ Len(S.snd) < 2   \* the request names a Destination-Host: any configured peer, eligible for the application or not
+     THEN {[a |-> "send", k |-> Len(S.snd) + 1, app |-> ap, realm |-> NodeCfg.realm, timeout |-> 1, pick |-> "first", dhost |-> h] : ap \in Apps, h \in Peers} ELSE {}) \cup
   (IF "send" \in Alpha /\ Len(S.snd) < 2
      THEN {[a |-> "send", k |-> Len(S.snd) + 1, app |-> ap, realm |-> rl, timeout |-> to, pick |-> pk]
              : ap \in Apps, rl \in {NodeCfg.realm, "r9"}, to \in {1, 30}, pk \in {"first", "last"}} ELSE {}) \cup
